@@ -134,11 +134,17 @@ def run_impl(case):
         if case["start"]:
             await asyncio.sleep(case["start"] / TICK)
         nprod = len(case["producers"])
+        if case.get("dask_api"):
+            # the same node reached through the DaskStream API (streamz/dask.py re-registers rate_limit / delay for DaskStream;
+            # neither submits work: no cluster is involved)
+            from streamz.dask import DaskStream as SourceClass
+        else:
+            SourceClass = Stream
         if case["topology"] == "union" and nprod > 1:
-            sources = [Stream(asynchronous=True) for _ in range(nprod)]
+            sources = [SourceClass(asynchronous=True) for _ in range(nprod)]
             head = sources[0].union(*sources[1:])
         else:
-            sources = [Stream(asynchronous=True)] * nprod
+            sources = [SourceClass(asynchronous=True)] * nprod
             head = sources[0]
         node = getattr(head, kind)(interval)
         c0 = now()
@@ -384,6 +390,8 @@ def gen_case(rng, kind):
         ids = [p * 100 + k for p, spec in enumerate(producers) for k in range(len(spec["gaps"]))]
         case["fail"] = sorted(rng.sample(ids, min(len(ids), rng.choice([1, 1, 2]))))
         case["fail_mode"] = rng.choice(["sync", "awaitable"])
+    if rng.random() < 0.15:
+        case["dask_api"] = True
     if rng.random() < 0.3:
         # one or two elements are falsy objects (None first of all) instead of integers
         ids = [p * 100 + k for p, spec in enumerate(producers) for k in range(len(spec["gaps"]))]
@@ -402,6 +410,9 @@ def C(kind, I, producers, costs=(), topology="single", start=0):
 
 
 CORPUS = [
+    # through the DaskStream API: idle, then a burst
+    dict(C("rate_limit", 8, [P(False, 20, 0, 0, 0)]), dask_api=True),
+    dict(C("delay", 8, [P(False, 0, 0, 3)]), dask_api=True),
     # intervals of a day and more, given as strings: a burst of three is spread over days
     dict(C("rate_limit", 86400 * 1024, [P(False, 0, 0, 0)]), interval_str="1d"),
     dict(C("rate_limit", 129600 * 1024, [P(True, 0, 5, 0)]), interval_str="36h"),
